@@ -1,9 +1,7 @@
 """C03 -- merging duplicates never changes a function: matches and parameter maps exact."""
-import itertools
 import json
 import os
 import re
-import shutil
 import sys
 
 import esrv
@@ -145,8 +143,8 @@ def run_list(ctx):
     ns = list(range(1, (4 if ctx.quick else 5) + 1))
     runs = [(b, None, ns) for b in SHIPPED]
     runs += [(name, basis, ns) for name, basis in SUBBASES.items()]
-    runs.append(DUPUNIQ)
     if not ctx.quick:
+        runs.append(DUPUNIQ)
         rng = esrv.rng(ctx.seed, "C03/random-subbases")
         unary = ["inv", "square", "cube", "sqrt_abs", "exp", "log_abs", "sin", "tenexp", "log10_abs"]
         binary = ["+", "*", "-", "/", "pow"]
@@ -259,10 +257,57 @@ def uniq_correspondence(ctx):
             theorem="C03_uniq_spec / C03_get_match_indexes_spec (Model/Uniq.v)")
 
 
+# crafted library files for the REAL check_results (max_param = 2 in each): functions whose map cannot be verified, some of
+# them with an own string that is already a unique entry (the corpus case behind key C03:unmerge:appended-unique-already-present)
+UNMERGE_CASES = [
+    {"n": 3, "all": ["a0*x", "a0 + x", "a0*x", "x/a0", "x**2 + a0", "x**2 + a0", "a0*x + a1", "a1 + x", "-a0 + x"],
+     "uniq": ["a0 + x", "a0*x", "a0*x + a1"], "matches": [0, 0, 1, 1, 0, 0, 2, 0, 0],
+     "subs": [["{a0: -a0}"], [], [], ["{a0: 1/a0}"], ["{a0: a0**2}"], ["{a0: a0**2}"], [], ["{a0: a1, a1: a0}"], ["{a0: -a0}"]]},
+    {"n": 3, "all": ["a0 + x", "-a0 + x", "a0*x + a1"], "uniq": ["a0 + x", "a0*x + a1"], "matches": [0, 0, 1],
+     "subs": [[], ["{a0: -a0}"], []]},
+    {"n": 4, "all": ["a0*x + a1", "a1*x + a0", "a0*x + a1"], "uniq": ["a0*x + a1"], "matches": [0, 0, 0], "subs": [[], ["nan"], []]},
+    {"n": 3, "all": ["a1 + a0*x", "a0*x", "a0*x", "a0 + x", "2*a0*x"], "uniq": ["a0 + x", "a0*x", "a0*x + a1"], "matches": [2, 0, 0, 0, 1],
+     "subs": [[], ["{a0: a0/2}"], ["{a0: a0/2}"], [], ["{a0: a0/2}"]]},
+    {"n": 5, "all": ["exp(a0)*x", "a0*x", "x*exp(a0) + a1", "exp(a0)*x"], "uniq": ["Abs(a0)*x", "a0*x", "a0*x + a1", "exp(a0)*x"],
+     "matches": [1, 1, 2, 0], "subs": [["{a0: exp(a0)}"], [], ["{a0: log(Abs(a0))}"], ["{a0: -a0}"]]},
+]
+
+
+def unmerge_correspondence(ctx):
+    rep = ctx.report
+    rc, out, err = esrv.run_py(ctx.scratch, IMPL, ["unmerge"], stdin=json.dumps(UNMERGE_CASES), timeout=600)
+    if rc != 0:
+        rep.fail("broken-correspondence", "unmerge driver failed", "C03:unmerge-driver", observed=err[-2000:], theorem="C03_unmerge_sound tie")
+        ctx.c03_unmerge = []
+        return
+    posts = json.loads(out)
+    ctx.c03_unmerge = list(zip(UNMERGE_CASES, posts))
+    parts = ["From Coq Require Import List NArith String.\nFrom ESRV Require Import Model.Uniq Model.DoSympy.\nImport ListNotations.\nOpen Scope N_scope.\n"]
+    for k, (c, p) in enumerate(ctx.c03_unmerge):
+        ids = Ids()
+        E = nl([ids.sid(x) for x in c["all"]])
+        U = nl([ids.sid(x) for x in c["uniq"]])
+        S = nll([ids.chain(r) for r in c["subs"]])
+        parts.append("Definition r%d := unmerge %s (mk_lib %s (map N.to_nat %s) %s) (map N.to_nat %s).\n" % (
+            k, E, U, nl(c["matches"]), S, nl(p["to_change"])))
+        parts.append('Eval vm_compute in ("UM%d"%%string, (lN_eqb (l_uniq r%d) %s && lN_eqb (nats (l_match r%d)) %s && llN_eqb (l_subs r%d) %s)%%bool).\n' % (
+            k, k, nl([ids.sid(x) for x in p["uniq"]]), k, nl(p["matches"]), k, nll([ids.chain(r) for r in p["subs"]])))
+    rc, out = esrv.coq_run("".join(parts))
+    flat = " ".join(out.split()).replace("%string", "")
+    for k, (c, p) in enumerate(ctx.c03_unmerge):
+        rep.case(key=("unmerge", k), nontrivial=len(p["to_change"]) > 0,
+                 sample={"crafted_files": c, "to_change": p["to_change"], "after_check_results": p} if k == 0 else None)
+        rep.traces += 1
+        if '("UM%d", true)' % k not in flat:
+            rep.fail("broken-correspondence", "Model/DoSympy.v unmerge and the real check_results differ on crafted library %d" % k,
+                     "C03:unmerge-corr", input=c, observed={"real": p, "coq": flat[-400:]}, theorem="C03_unmerge_sound / C03_final_uniques_distinct")
+
+
 def correspondence(ctx):
     import concurrent.futures as cf
     rep = ctx.report
     uniq_correspondence(ctx)
+    unmerge_correspondence(ctx)
     os.makedirs(os.path.join(ctx.scratch, "esr", "function_library"), exist_ok=True)
     runs = run_list(ctx)
     ctx.c03_recs = []
@@ -313,11 +358,13 @@ def correspondence(ctx):
                      "C03:trace-negative-control", observed=str(res), theorem="oracle-trace replay")
     rep.rule = ("uniq: every list over 3 symbols up to length 7 through the real get_unique_indexes and every (a,b) with |a|<=4, |b|<=3 "
                 "through get_match_indexes vs Model/Uniq.v (non-trivial: a repeated value); trace: real duplicate_checker.main on the six "
-                "shipped bases and %d sub-bases (cube, no '-', sin, exp/log only, ...) for n=1..%d (+ one n=6 run) with recording wrappers; the recorded "
+                "shipped bases and %d sub-bases (cube, no '-', sin, exp/log only, ...; thorough adds 6 seeded random sub-bases and the n=6 "
+                "corpus run of {log_abs,inv,+,-,*}) for n=1..%d with recording wrappers; the recorded "
                 "sympy_simplify answers, shuffle permutation, simplify_inv_subs table and check_results' to_change are fed to "
                 "Model/DoSympy.v under vm_compute and 15 components (call arguments, per-round files, round counts, all_fun, concatenated "
-                "chains, the three files before and after check_results) are compared as id lists (non-trivial: some function has a chain)"
-                % (len(runs) - len(SHIPPED), 4 if ctx.quick else 5))
+                "chains, the three files before and after check_results) are compared as id lists (non-trivial: some function has a chain); "
+                "unmerge: the real check_results on %d crafted library directories vs Model/DoSympy.v unmerge"
+                % (len(SUBBASES), 4 if ctx.quick else 5, len(UNMERGE_CASES)))
     rep.exhaustive = False
 
 
@@ -496,7 +543,7 @@ def search(ctx):
                  sample=None if not (r["n"] == 4 and r["run"] in ("base_e_maths", "verif_cube")) else {"run": r["run"], "n": r["n"], "stats": s, "recorded_steps": {k: (v if isinstance(v, int) else len(v))
                                                                                       for k, v in r["steps"].items()}})
         basis = basis_of.get((r["run"], r["n"])) or r["run"]
-        explained = set(c["function"] for c in r["clash"])
+        explained = set(c["function"] for c in r["clash"] if len(c["final_unique_lines_with_this_string"]) > 1)
         for v in r["viol"]:
             if v["kind"] == "unique-duplicate" and explained and set(v.get("dup", [])) <= explained:
                 continue
@@ -508,7 +555,10 @@ def search(ctx):
                 "C03:" + v["kind"], input=dict(v, basis=basis, n=r["n"], run=r["run"]),
                 observed=v.get("point") or v, expected="f_i(sigma_i(theta)) == u_{m_i}(theta) at generic points; nan only with "
                 "strictly fewer parameters; distinct gap-free uniques; one row per function")
+        tot["unmerged_own_string_already_unique"] = tot.get("unmerged_own_string_already_unique", 0) + len(r["clash"])
         for c in r["clash"]:
+            if len(c["final_unique_lines_with_this_string"]) <= 1:
+                continue        # matched to the existing entry: fine
             rep.fail("failing-input", "check_results appended the un-merged function %d (%s) of %s n=%d as new unique %d although the same "
                      "string is already unique %d: unique_equations_%d.txt holds it on lines %s" % (
                          c["index"], c["function"], r["run"], r["n"], c["appended_unique_index"], c["existing_unique_index"], r["n"],
@@ -516,6 +566,28 @@ def search(ctx):
                      "C03:unmerge:appended-unique-already-present", input=dict(c, basis=basis, n=r["n"], run=r["run"]),
                      observed={"unique_equations lines (0-based) holding the string": c["final_unique_lines_with_this_string"]},
                      expected="unique entries pairwise distinct")
+    # the un-merge stated directly on the real check_results' output for the crafted libraries
+    for k, (c, p) in enumerate(getattr(ctx, "c03_unmerge", [])):
+        tc = set(p["to_change"])
+        dup = sorted(set(u for u in p["uniq"] if p["uniq"].count(u) > 1))
+        if dup:
+            rep.fail("failing-input", "check_results left the unique list of crafted library %d with repeated entries %r" % (k, dup),
+                     "C03:unmerge:appended-unique-already-present", input=c, observed=p, expected="unique entries pairwise distinct")
+        bad = []
+        for i in range(len(c["all"])):
+            if len(p["matches"]) != len(c["all"]) or len(p["subs"]) != len(c["all"]):
+                bad.append(("row-counts", len(p["matches"]), len(p["subs"])))
+                break
+            if i in tc:
+                if not (0 <= p["matches"][i] < len(p["uniq"]) and p["uniq"][p["matches"][i]] == c["all"][i] and p["subs"][i] == []):
+                    bad.append((i, "un-merged function is not its own unique with an empty row"))
+            elif p["matches"][i] != c["matches"][i] or p["subs"][i] != c["subs"][i]:
+                bad.append((i, "untouched function changed"))
+        if p["uniq"][:len(c["uniq"])] != c["uniq"]:
+            bad.append(("uniq", "existing unique entries moved"))
+        if bad:
+            rep.fail("failing-input", "check_results on crafted library %d: %r" % (k, bad[:3]), "C03:unmerge:wrong-rows",
+                     input=c, observed=p, expected="un-merged functions are their own unique with empty row; others unchanged")
     for rec in recs:
         tot["unmerged"] += len((rec.get("check_results") or {}).get("to_change") or [])
     rep.extra["c03_totals"] = tot
@@ -548,8 +620,6 @@ ASSUMPTIONS = [
     "validated numerically per library and reported)",
     "all_inv_subs is [None]*N at the start of every round (so the slice branch t[k][len(uniq_inv_subs):] is dead); asserted on the "
     "recorded calls (tin all None) on every run",
-    "the final unique list is duplicate-free after check_results only if no un-merged function's own string is already a unique "
-    "(C03_unmerge_can_duplicate shows the model allows it; the search reports any real occurrence)",
 ]
 LEVEL_TEXT = ("Machine-checked theorems (Coq, no axioms) on a faithful model of the duplicate-merging bookkeeping: get_unique_indexes / "
               "get_match_indexes specifications; for ANY shuffle permutation uniq'[match_idx k] = all_fun k; and, for any number of rounds in "
@@ -559,7 +629,8 @@ LEVEL_TEXT = ("Machine-checked theorems (Coq, no axioms) on a faithful model of 
               "The model is tied to the code by replaying recorded oracle answers of real generation runs through it on every check. "
               "Tests can sample libraries but cannot quantify over rounds, permutations and oracle behaviours.")
 LEVEL_NOTE = ("Not proved: that sympy's individual rewrites satisfy the contract (each recorded step is checked numerically and counted); "
-              "the text round trip of chain files (C17); that extra trees equal their originals (C11). Post-un-merge distinctness of uniques "
-              "holds only under a side condition that check_results does not test.")
+              "the text round trip of chain files (C17); that extra trees equal their originals (C11). The un-merge of check_results is "
+              "additionally tied by running the real function on crafted library files (incl. an un-merged function whose own string is "
+              "already a unique entry, the case repaired in commit 50d5ff4).")
 TECHNIQUE = ("Coq proof over hand-written models (list/dict induction, round invariant, composition order) + oracle-trace replay of real "
              "runs under vm_compute + exhaustive small-list correspondence + mpmath statement check on every generated library")
